@@ -94,6 +94,16 @@ func metaCheck(env *core.Env, cc core.Case) core.Verdict {
 			bad.Features = v.Features
 			return *bad
 		}
+		if c.Kind == "except" && !c.Strict {
+			// duplicates in F: the statement fixes the relative order of the survivors, so the text must at least be stable
+			first := raGenerate(env, root, p.Main, false)
+			for k := 0; k < 5; k++ {
+				if r := raGenerate(env, root, p.Main, false); r.Out != first.Out {
+					return core.Viol("except:order-unstable", "the same include-except program gives different output in repeated runs (the order of the surviving entries is not F's order)\nprogram=%s\nfiles=%v\nout1=%s\nout2=%s", core.Q(p.Main), p.Files.Include, core.Q(first.Out), core.Q(r.Out))
+				}
+			}
+			v.Counts["repeat_runs"] += 5
+		}
 		v.Nontrivial = q != p.Main
 		return v
 	case "defs":
@@ -241,6 +251,14 @@ func c05Gen(rng *rand.Rand) *metaCase {
 	}
 	switch pos {
 	case "top":
+		if core.Chance(rng, 1, 4) {
+			// the same file more than once: twice directly (with and without .ra), and through two files that both include it
+			feats["same-file-twice"] = true
+			f := ig.file(1, false, true, feats)
+			p.Files.Include["dia1"] = "diaone\n##!> include " + f + "\n"
+			p.Files.Include["dia2"] = "##!> include " + f + ".ra\ndiatwo\n"
+			ls = append(ls, "##!> include "+f, "between", "##!=>", "##!> include "+f+".ra", "##!> include dia1", "##!> include dia2")
+		}
 		for k := 1 + rng.Intn(2); k > 0; k-- {
 			ls = append(ls, core.Pick(rng, "", "  ")+"##!> include "+ig.file(2, false, true, feats)+ext())
 			if core.Chance(rng, 1, 2) {
@@ -400,7 +418,7 @@ func c06Gen(rng *rand.Rand) *metaCase {
 		}
 		var ps []string
 		for i, k := range chosen {
-			rep := core.Pick(rng, "Z", "yy", `""`, "q1")
+			rep := core.Pick(rng, "Z", "yy", `""`, "q1", `"`, `x"`, `"y`, `[^"]*"`, `"[^"]+`)
 			if i > 0 && core.Chance(rng, 1, 2) {
 				rep = "w" + chosen[i-1] // the replacement ends in another pair's key
 				feats["replacement-ends-in-other-key"] = true
@@ -451,7 +469,7 @@ func c07Gen(rng *rand.Rand) *metaCase {
 	// acyclic reference graph: definition i may refer to definitions with a larger index
 	vals := make([]string, nd)
 	for i := range names {
-		v := core.Pick(rng, "abc", `\d{2}`, `[a-c]+`, `a{2}`, `[{]`, `(?:x|y)`, `(?:m|n)`, `\.`, `q?`, `[^{}]`, `w{1,3}`)
+		v := core.Pick(rng, "abc", `\d{2}`, `[a-c]+`, `a{2}`, `[{]`, `(?:x|y)`, `(?:m|n)`, `\.`, `q?`, `\$_get`, `[$a-z_][$\w]*`, `a{1,2}${3}`, `\$1`, `$`, `[^{}]`, `w{1,3}`)
 		if i+1 < nd && core.Chance(rng, 1, 2) {
 			v += "{{" + names[i+1+rng.Intn(nd-i-1)] + "}}"
 			feats["nested-definition"] = true
